@@ -15,10 +15,14 @@
                             floats it is bit-identical.
    Not proved (DESIGN section 10): absence of data races / torn reads (Rust's thread::scope borrowing
    rules, trusted); that num_cpus::get() follows the affinity mask (observed by the executor in-process
-   on every run); "bit-identical to the sequential dot on exact-sum data" over IEEE floats (P3, Flocq) --
-   that half is tied bitwise on every run for all lengths 0..200 x every worker count 1..16. *)
-From Coq Require Import List Arith Permutation QArith Qcanon Floats.
-From OV Require Import Base.Panic Base.Arith Model.Vector Model.ParDot Proofs.ParDot Inst.QcInst Inst.FloatInst.
+   on every run).  P3 is proved as well: pardot_exact_float -- over IEEE binary64 (primitive floats related to Flocq's
+   binary_float), integer-valued data with sum |v_i w_i| < 2^53 gives a result bit-identical to the sequential dot for
+   every worker count.  The accuracy bound on arbitrary data ("up to reassociation") is searched, not proved. *)
+From Coq Require Import List Arith Permutation QArith Qcanon ZArith.
+From OV Require Import Base.Panic Base.Arith Model.Vector Model.ParDot Proofs.ParDot Proofs.ParDotFloat Inst.QcInst Inst.FloatInst.
+(* the primitive-float modules are deliberately NOT imported here: Print Assumptions then shows the qualified names
+   (PrimFloat.add, FloatAxioms.add_spec, ...) that the audit's allow-list recognises; float data for the examples is
+   defined in Proofs/ParDotFloat.v *)
 Import ListNotations.
 Local Open Scope nat_scope.
 
@@ -77,11 +81,34 @@ Print Assumptions schedule_independent.
    (0.1*3 + 0.2*3) + ... evaluated by the IEEE machine *)
 Example schedule_independent_nonvacuous :
   Permutation [2; 0; 1] (seq 0 3) /\
-  run_sched (A := AF) [2; 0; 1] 3 [0.5; 0.25; 1.5; 0.75]%float [3; 3; 3; 3]%float
-  = pardot (A := AF) 3 [0.5; 0.25; 1.5; 0.75]%float [3; 3; 3; 3]%float /\
-  is_ok (pardot (A := AF) 3 [0.5; 0.25; 1.5; 0.75]%float [3; 3; 3; 3]%float) = true.
+  run_sched (A := AF) [2; 0; 1] 3 ex_sv ex_sw = pardot (A := AF) 3 ex_sv ex_sw /\
+  is_ok (pardot (A := AF) 3 ex_sv ex_sw) = true.
 Proof.
   split.
   - apply perm_trans with [0; 2; 1]; [apply perm_swap|]. apply perm_skip. apply perm_swap.
   - split; vm_compute; reflexivity.
+Qed.
+
+(* ---- P3: IEEE binary64, integer-valued data with sum |v_i w_i| < 2^53: bit-identical to the sequential product ----
+   [ExactW x z]: the primitive float x is finite and its real value (Flocq's B2R of Prim2B x) is the integer z.
+   [audit_separator]: see Props/C15.v -- ends the axiom list of the preceding theorem for the driver's parser. *)
+Lemma audit_separator : True.
+Proof. exact I. Qed.
+
+Theorem pardot_exact_float : forall t (v w : list AF) (zs ws : list Z),
+  1 <= t -> Forall2 ExactW v zs -> Forall2 ExactW w ws -> length zs = length ws ->
+  (zadot zs ws < 2 ^ 53)%Z -> pardot (A := AF) t v w = dot (A := AF) v w.
+Proof. intros t v w zs ws Ht Hv Hw Hl Hb. exact (pardot_exact_float_lemma t v w zs ws Ht Hv Hw Hl Hb). Qed.
+Check pardot_exact_float : forall t (v w : list AF) (zs ws : list Z),
+  1 <= t -> Forall2 ExactW v zs -> Forall2 ExactW w ws -> length zs = length ws ->
+  (zadot zs ws < 2 ^ 53)%Z -> pardot (A := AF) t v w = dot (A := AF) v w.
+Print Assumptions pardot_exact_float.
+Print Assumptions audit_separator.
+
+Example pardot_exact_float_nonvacuous :
+  1 <= 3 /\ Forall2 ExactW ex_fv ex_zv /\ Forall2 ExactW ex_fw ex_zw /\ length ex_zv = length ex_zw /\
+  (zadot ex_zv ex_zw < 2 ^ 53)%Z /\ is_ok (pardot (A := AF) 3 ex_fv ex_fw) = true.
+Proof.
+  split; [auto with arith|]. split; [exact ex_fv_exact|]. split; [exact ex_fw_exact|].
+  split; [reflexivity|]. split; [reflexivity|]. vm_compute. reflexivity.
 Qed.
